@@ -222,6 +222,43 @@ func extractC14(c *ctxT) {
 						}
 					}
 				}
+				// `if k.accountKeeper.GetAccount(ctx, <X>.Bytes()) == nil { k.accountKeeper.SetAccount(ctx, …NewAccountWithAddress(ctx, <Y>.Bytes())) }`:
+				// the account of X is created when it does not exist.  Emitted as `ensure-account:<X>:<Y>` with the
+				// Go variables as written (`ensure-to-account` only when both are toAddress and the body stores the
+				// new account with SetAccount), so a creation for the wrong address, or one that is never stored,
+				// reaches the model as a statement it does not know.
+				if be, ok := s.Cond.(*ast.BinaryExpr); ok && s.Init == nil && !returnsErr && be.Op.String() == "==" && c.src(be.Y) == "nil" {
+					if ce, ok := be.X.(*ast.CallExpr); ok && len(ce.Args) == 2 {
+						if se, ok := ce.Fun.(*ast.SelectorExpr); ok && se.Sel.Name == "GetAccount" {
+							x := strings.TrimSuffix(c.src(ce.Args[1]), ".Bytes()")
+							y, stored := "", false
+							ast.Inspect(s.Body, func(n ast.Node) bool {
+								ce2, ok := n.(*ast.CallExpr)
+								if !ok {
+									return true
+								}
+								if se2, ok := ce2.Fun.(*ast.SelectorExpr); ok {
+									if se2.Sel.Name == "NewAccountWithAddress" && len(ce2.Args) == 2 {
+										y = strings.TrimSuffix(c.src(ce2.Args[1]), ".Bytes()")
+									}
+									if se2.Sel.Name == "SetAccount" && len(ce2.Args) == 2 && strings.Contains(c.src(ce2.Args[1]), "NewAccountWithAddress") {
+										stored = true
+									}
+								}
+								return true
+							})
+							if x == "toAddress" && y == "toAddress" && stored && len(s.Body.List) == 1 && s.Else == nil {
+								order = append(order, "ensure-to-account")
+							} else {
+								st := "stored"
+								if !stored {
+									st = "not-stored"
+								}
+								order = append(order, "ensure-account:"+x+":"+y+":"+st)
+							}
+						}
+					}
+				}
 				_ = cond
 			case *ast.AssignStmt:
 				if strings.Contains(src, "checkMigrateFrom(ctx, fromAddress)") {
@@ -603,6 +640,20 @@ func extractC14(c *ctxT) {
 		}
 		stmts := lit.Body.List
 		for i, st := range stmts {
+			// a return WITHOUT error anywhere in front of the callback's last statement ends the checks of this proposal early
+			// (whatever follows is skipped for it): emitted as `early-exit`, a statement the model does not know
+			if i < len(stmts)-1 {
+				early := false
+				ast.Inspect(st, func(n ast.Node) bool {
+					if rs, ok := n.(*ast.ReturnStmt); ok && len(rs.Results) == 2 && c.src(rs.Results[1]) == "nil" {
+						early = true
+					}
+					return true
+				})
+				if early {
+					out = append(out, "early-exit")
+				}
+			}
 			switch x := st.(type) {
 			case *ast.IfStmt:
 				// if A.Equals(sdk.AccAddress(proposer)) { return false, err }
